@@ -1636,7 +1636,8 @@ class RefCatalog(object):
                 "Unexpected error: Contact software developer"
             )
 
-        elif len(xv) == 1:
+        elif len(xv) == 1 or (len(xv) == 2 and xv[0] == xv[1] and
+                              yv[0] == yv[1]):
             # one point. build a small box around it:
             tol = 0.5 * np.deg2rad(self._footprint_tol / 3600.0)
 
